@@ -24,7 +24,7 @@ def main():
     out = {"property": prop, "mutant": m, "what_changed": meta.get("what_changed"), "needs_to_manifest": meta.get("needs_to_manifest"), "ran": []}
     # --- confirm in the scratch worktree
     sh("git checkout -- . && git clean -fdq -e SEED", cwd=wt)
-    target = meta.get("demo_target", "")
+    target = meta.get("demo_target", "").split(" ")[0].strip()
     kind = meta.get("demo_kind", "integration_test")
     def place_demo():
         if kind == "integration_test":
